@@ -73,6 +73,11 @@ def run(ctx):
     # lossless ZINC leg: what the writer escapes, the reader un-escapes to the same text (clause shared with C08.D1)
     for which in ('str', 'uri'):
         _zinc.escape_pair(ctx, 'C07.D3', which)
+    # dumping compares versions (the 3.0 gates): comparing must not change a Version (shared with C18.D2)
+    from . import c18
+    c18.version_immutable(ctx, 'C07.D1')
+    # every parsed XStr can be dumped again: decoding and encoding agree on the encoding name (shared with C06.D2)
+    _zinc.xstr_codec(ctx, 'C07.D3')
     for modname in ('zincdumper', 'jsondumper'):
         _zinc.header_version(ctx, 'C07.D3', modname)
         _zinc.version_threading(ctx, 'C07.D3', modname)
